@@ -1,16 +1,17 @@
 // C10 — OPL permission expressions mean what the same TypeScript means.
 //
 // Bounded-exhaustive:
-//   (T) every boolean expression tree with <= K binary operators over distinct
-//       atoms, every placement of up to two '!' on every root-to-leaf path (a
-//       node may carry 0, 1 or 2), atoms realised by the four leaf kinds
-//       (rotated over the atom positions), each rendered in four parenthesis
-//       layouts; oracle: Parse has no errors and the truth table of the parsed
-//       rewrite equals the table RefOPL computes from the rendered TEXT.
-//   (N) nesting of '(' and '!(' up to the documented limit.
-//   (V) the full product of spelling variants on two documents; oracle: no
-//       errors and relations / types / rewrites equal the source AST up to
-//       flattening of associative operators.
+//
+//	(T) every boolean expression tree with <= K binary operators over distinct
+//	    atoms, every placement of up to two '!' on every root-to-leaf path (a
+//	    node may carry 0, 1 or 2), atoms realised by the four leaf kinds
+//	    (rotated over the atom positions), each rendered in four parenthesis
+//	    layouts; oracle: Parse has no errors and the truth table of the parsed
+//	    rewrite equals the table RefOPL computes from the rendered TEXT.
+//	(N) nesting of '(' and '!(' up to the documented limit.
+//	(V) the full product of spelling variants on two documents; oracle: no
+//	    errors and relations / types / rewrites equal the source AST up to
+//	    flattening of associative operators.
 package opl
 
 import (
@@ -253,7 +254,7 @@ func specExampleProg() *Prog {
 		{Name: "User", Rels: []RelDecl{{"manager", []TypeRef{{"User", ""}}}}},
 		{Name: "Group", Rels: []RelDecl{{"members", []TypeRef{{"User", ""}, {"Group", ""}}}}},
 		{Name: "Folder",
-			Rels: []RelDecl{{"parents", []TypeRef{{"File", ""}}}, {"viewers", []TypeRef{{"User", ""}, ss}}},
+			Rels:  []RelDecl{{"parents", []TypeRef{{"File", ""}}}, {"viewers", []TypeRef{{"User", ""}, ss}}},
 			Perms: []PermDecl{{"view", Atom(LIncludes, "viewers", "")}}},
 		{Name: "File",
 			Rels: []RelDecl{{"parents", []TypeRef{{"File", ""}, {"Folder", ""}}}, {"viewers", []TypeRef{{"User", ""}, ss}},
@@ -545,21 +546,21 @@ func TestC10(t *testing.T) {
 		"distinct_nontrivial": int(cnt.nontrivial.Load()),
 		"rule": "every (tree shape x operator assignment x '!' placement with <=2 per path x leaf-kind rotation) with <= max_binary_operators, each in 4 parenthesis layouts; every '(' / '!(' wrapper string of length <= 9; full product of the spelling dimensions x 5 layouts on 2 documents + one comment in every token gap. " +
 			"distinct_nontrivial counts (a) trees (pairwise distinct by construction, each judged in 4 layouts) with >= 2 binary operators or a '!', plus (b) accepted spelling variants (pairwise distinct texts: every style dimension changes the text of both documents) compared against the source AST",
-		"max_binary_operators":   K,
-		"tree_indices":           total,
-		"tree_indices_void":      int(voidIdx.Load()),
-		"trees":                  int(trees.Load()),
-		"tree_renderings":        int(perParen[0].Load() + perParen[1].Load() + perParen[2].Load() + perParen[3].Load()),
-		"nesting_cases":          int(nestCases.Load()),
-		"spelling_variants":      int(variants.Load()),
-		"spelling_not_demanded":  int(variantSkipped.Load()),
-		"comment_gap_cases":      int(gapCases.Load()),
-		"accepted":               int(cnt.accepted.Load()),
-		"beyond_nesting_limit":   int(cnt.overLimit.Load()),
-		"style_dimensions":       dims,
-		"layouts":                layoutName,
-		"paren_layouts":          parenName,
+		"max_binary_operators":    K,
+		"tree_indices":            total,
+		"tree_indices_void":       int(voidIdx.Load()),
+		"trees":                   int(trees.Load()),
+		"tree_renderings":         int(perParen[0].Load() + perParen[1].Load() + perParen[2].Load() + perParen[3].Load()),
+		"nesting_cases":           int(nestCases.Load()),
+		"spelling_variants":       int(variants.Load()),
+		"spelling_not_demanded":   int(variantSkipped.Load()),
+		"comment_gap_cases":       int(gapCases.Load()),
+		"accepted":                int(cnt.accepted.Load()),
+		"beyond_nesting_limit":    int(cnt.overLimit.Load()),
+		"style_dimensions":        dims,
+		"layouts":                 layoutName,
+		"paren_layouts":           parenName,
 		"violations_by_signature": sigs,
-		"exhaustive":             true,
+		"exhaustive":              true,
 	})
 }
